@@ -36,10 +36,10 @@ What is NOT proved here (listed, no theorem):
   property C08's business and is imported here as `sparse_accumulators_are_dense` (§6).  What *differs* on the sparse
   side are the two correction ufuncs (`sparse_correct_alternative_cosine` / `_hellinger`: a dead
   band `|d| ≤ 10⁻⁷ → 0`), and these ARE modelled and proved (§4).  `sparse_alternative_jaccard`
-  additionally returns `FLOAT32_MAX` instead of `+∞` for disjoint supports;
-* the dense `alternative_jaccard` for disjoint non-empty supports evaluates `−log₂ 0` (`+∞` in
-  IEEE arithmetic, corrected to `1 − 2^(−∞) = 1`; over `ℝ` `logb 2 0 = 0` is a totalisation, so the
-  theorems require `num_equal > 0`): harness only;
+  returns `FLOAT32_MAX` for disjoint supports — and so does the dense `alternative_jaccard` since
+  repository commit d428a58 (`elif num_equal == 0.0: return FLOAT32_MAX`; before, it evaluated
+  `−log₂ 0 = +∞`, which no heap push accepts): modelled, and proved in
+  `alternative_jaccard_disjoint_finite` (§5) and `saturation_cosine` (§3);
 * order preservation *across* the saturation boundary needs `s > 2^(−FLOAT32_MAX)` for the live
   candidate (`surrogate_lt_f32max_iff`); for float32 data this always holds (`s ≥ 2⁻¹⁴⁹·2⁻¹²⁸`),
   which is not a statement about `ℝ` and is left to the harness;
@@ -136,7 +136,8 @@ theorem squared_euclidean_order (x y z : List ℝ) :
 
 /-! ## 3. saturation: `FLOAT32_MAX` through the corrections -/
 
-/-- cosine / dot / jaccard-sparse: the corrected saturation value is `1 − 2^(−FLOAT32_MAX)`, not
+/-- cosine / dot / jaccard (dense `alternative_jaccard` — its `num_equal == 0.0` branch — and
+sparse `sparse_alternative_jaccard` alike): the corrected saturation value is `1 − 2^(−FLOAT32_MAX)`, not
 the far end `1`: it is below `1` by `2^(−FLOAT32_MAX)`, a positive real smaller than `2⁻¹⁰⁷⁵` — half
 the smallest positive double (and far below half the smallest positive float32, `2⁻¹⁵⁰`), so
 `pow(2.0, -FLOAT32_MAX)` evaluates to `0.0` and the *computed* value is exactly `1.0`. -/
@@ -439,7 +440,8 @@ theorem hellinger_surrogate_zero (x y : List ℝ) :
 
 /-- **jaccard**, over the two counts (`num_non_zero = |x∨y|`, `num_equal = |x∧y|`, any dimension):
 with a non-empty intersection the surrogate is `−log₂(|x∧y|/|x∨y|)`, the kernel `1 −` that ratio,
-the correction exact and the order preserved; two empty supports give `0` on both sides. -/
+the correction exact and the order preserved; two empty supports give `0` on both sides.  (Disjoint
+non-empty supports, `e = 0 < n`: `alternative_jaccard_disjoint_finite` below.) -/
 theorem jaccard_surrogate (n e n' e' : ℕ) (he : 0 < e) (hen : e ≤ n) (he' : 0 < e') (hen' : e' ≤ n') :
     alternativeJaccardOfCounts (n : ℝ) (e : ℝ) = surrogateOf ((e : ℝ) / n) ∧
     jaccardOfCounts (n : ℝ) (e : ℝ) = 1 - (e : ℝ) / n ∧
@@ -453,7 +455,8 @@ theorem jaccard_surrogate (n e n' e' : ℕ) (he : 0 < e) (hen : e ≤ n) (he' : 
     intro n e he hen
     have hn : (0 : ℝ) < (n : ℝ) := by exact_mod_cast lt_of_lt_of_le he hen
     have he0 : (0 : ℝ) < (e : ℝ) := by exact_mod_cast he
-    rw [alternativeJaccardOfCounts_real, jaccardOfCounts_real, if_neg hn.ne', if_neg hn.ne']
+    rw [alternativeJaccardOfCounts_real, jaccardOfCounts_real, if_neg hn.ne', if_neg he0.ne',
+      if_neg hn.ne']
     refine ⟨rfl, ?_, div_pos he0 hn⟩
     field_simp
   obtain ⟨ha, hj, hs⟩ := live n e he hen
@@ -465,6 +468,42 @@ theorem jaccard_surrogate (n e n' e' : ℕ) (he : 0 < e) (hen : e ≤ n) (he' : 
   · rw [alternativeJaccardOfCounts_real, jaccardOfCounts_real, if_pos rfl, if_pos rfl,
       correctAlternativeJaccard_real]
     simp
+
+/-- **jaccard, disjoint non-empty supports** (`num_equal = 0 < num_non_zero`; the branch
+`elif num_equal == 0.0: return FLOAT32_MAX` of the dense kernel, repository commit d428a58, which
+its sparse twin always had).  The surrogate is the FINITE value `FLOAT32_MAX` — so a heap whose free
+slots hold `+inf` accepts the candidate (`p < inf`), which `−log₂ 0 = +inf` never was: `connect_graph`
+can join components of jaccard data with disjoint supports —; the named kernel gives `1`; the
+correction gives `1 − 2^(−FLOAT32_MAX)`, i.e. it is off the documented value `1` by
+`2^(−FLOAT32_MAX) < 2⁻¹⁰⁷⁵` only (computed: exactly `1.0`); and a live candidate (`0 < e' ≤ n'`)
+sorts strictly before the saturated one iff its Jaccard index exceeds `2^(−FLOAT32_MAX)`. -/
+theorem alternative_jaccard_disjoint_finite (n : ℕ) (hn : 0 < n) :
+    alternativeJaccardOfCounts (n : ℝ) (0 : ℝ) = (Arith.f32max : ℝ) ∧
+    jaccardOfCounts (n : ℝ) (0 : ℝ) = 1 ∧
+    correctAlternativeJaccard (alternativeJaccardOfCounts (n : ℝ) (0 : ℝ))
+      = 1 - (2 : ℝ) ^ (-(f32maxNat : ℝ)) ∧
+    0 < jaccardOfCounts (n : ℝ) (0 : ℝ) - correctAlternativeJaccard (alternativeJaccardOfCounts (n : ℝ) (0 : ℝ)) ∧
+    jaccardOfCounts (n : ℝ) (0 : ℝ) - correctAlternativeJaccard (alternativeJaccardOfCounts (n : ℝ) (0 : ℝ))
+      < (2 : ℝ) ^ (-(1075 : ℝ)) ∧
+    (∀ n' e' : ℕ, 0 < e' → e' ≤ n' →
+      (alternativeJaccardOfCounts (n' : ℝ) (e' : ℝ) < alternativeJaccardOfCounts (n : ℝ) (0 : ℝ) ↔
+        (2 : ℝ) ^ (-(f32maxNat : ℝ)) < (e' : ℝ) / n')) := by
+  have hn' : (0 : ℝ) < (n : ℝ) := by exact_mod_cast hn
+  have ha : alternativeJaccardOfCounts (n : ℝ) (0 : ℝ) = (f32maxNat : ℝ) := by
+    rw [alternativeJaccardOfCounts_real, if_neg hn'.ne', if_pos rfl]
+  have hj : jaccardOfCounts (n : ℝ) (0 : ℝ) = 1 := by
+    rw [jaccardOfCounts_real, if_neg hn'.ne', sub_zero, div_self hn'.ne']
+  have hc : correctAlternativeJaccard (alternativeJaccardOfCounts (n : ℝ) (0 : ℝ))
+      = 1 - (2 : ℝ) ^ (-(f32maxNat : ℝ)) := by
+    rw [ha]; exact saturation_cosine.2.1
+  refine ⟨ha, hj, hc, ?_, ?_, ?_⟩
+  · rw [hj, hc]; have := two_rpow_neg_f32max_pos; linarith
+  · rw [hj, hc]; have := two_rpow_neg_f32max_lt; linarith
+  · intro n' e' he' hen'
+    have hn0 : (0 : ℝ) < (n' : ℝ) := by exact_mod_cast lt_of_lt_of_le he' hen'
+    have he0 : (0 : ℝ) < (e' : ℝ) := by exact_mod_cast he'
+    rw [ha, alternativeJaccardOfCounts_real, if_neg hn0.ne', if_neg he0.ne']
+    exact surrogate_lt_f32max_iff _ (div_pos he0 hn0)
 
 /-! ## 6. sparse data: the accumulators of the sparse surrogates are the dense ones (C08) -/
 
